@@ -193,3 +193,23 @@ Definition check_wcase (x : (Z * list wt) * (option (list wt) * option (list Z))
 (* correspondence, the monitor alone on a status-report set after loading: ((c, entries), weights in use) *)
 Definition check_mcase (x : (Z * list wt) * list Z) : bool :=
   list_eqb Z.eqb (mon_used (fst (fst x)) (snd (fst x))) (snd x).
+
+(* ======================================================================================
+   Which stages CheckStatus counts (Controller.get_stages_finished / get_stages_in_transit, control.py).
+   A node of the workflow graph is (stage index, active?) - active until the controller has observed its
+   termination; nodes may be ADDED to existing stages while the workflow runs (iterations of a DoWhile).
+   in transit: the stages of the active nodes; finished: the known stages without an active node -
+   both computed from the nodes as they are NOW. *)
+Definition stage_active (nodes : list (Z * bool)) (s : Z) : bool :=
+  existsb (fun nb => (fst nb =? s) && snd nb) nodes.
+Definition stages_in_transit (nodes : list (Z * bool)) : list Z := map fst (filter snd nodes).
+Definition stages_finished (stages : list Z) (nodes : list (Z * bool)) : list Z :=
+  filter (fun s => negb (stage_active nodes s)) stages.
+
+Definition subset_b (l r : list Z) : bool := forallb (fun x => existsb (Z.eqb x) r) l.
+
+(* correspondence: ((known stages, nodes), (finished, in transit) reported by the real Controller) *)
+Definition check_scase (x : (list Z * list (Z * bool)) * (list Z * list Z)) : bool :=
+  let st := fst (fst x) in let nodes := snd (fst x) in
+  list_eqb Z.eqb (stages_finished st nodes) (fst (snd x)) &&
+  subset_b (stages_in_transit nodes) (snd (snd x)) && subset_b (snd (snd x)) (stages_in_transit nodes).
